@@ -57,7 +57,9 @@ impl From<&Ethernet> for Vec<u8> {
     fn from(eth: &Ethernet) -> Self {
         let header = eth.header.borrow().clone();
         let mut bytes: Vec<u8> = (&header).into();
-        if let Some(inner) = eth.inner.borrow().clone() {
+        // an error object stands for a layer that could not be parsed: its bytes are still the raw ones
+        let inner = eth.inner.borrow().clone();
+        if let Some(inner) = inner.filter(|i| !matches!(i.as_ref(), Object::Err(_))) {
             let data: Vec<u8> = inner.as_ref().into();
             bytes.extend_from_slice(&data);
         } else {
